@@ -7,9 +7,10 @@ Theorems about `Model/Marshal.lean` (transcription of base/untyped/val.go `Marsh
 `unmarshalFloat` and of the go/constant paths they use).
 
 * `unmarshal_marshal` : for EVERY constant `v` of every kind whose float parts are exact fractions in
-  lowest terms with numerator and denominator below 2^4094, `unmarshal (marshal v) = ok v` — same
-  kind, identical value.  Strings are arbitrary byte lists (':' , newline, non-UTF-8 included),
-  integers and runes are arbitrary `Int`s.
+  lowest terms with numerator and denominator below 2^4094 (code as found; fewer than 4096 bits with
+  the repair), or genuine floatVals (512-bit mantissa, binary exponent outside (-4096,4096)),
+  `unmarshal (marshal v) = ok v` — same kind, identical value.  Strings are arbitrary byte lists
+  (':' , newline, non-UTF-8 included), integers and runes are arbitrary `Int`s.
 * The bound is essential *for the code as it is*: `unmarshal_marshal_fails_above_threshold` exhibits,
   inside the model, an exact constant just below 2^4095 that decodes to a different number (the
   finding `float-exact-rat-lt-4096-bits-rounded` reported by the correspondence run).
@@ -25,9 +26,12 @@ def Val.WF : Val → Prop
   | .complex re im => re.WF ∧ im.WF
   | _ => True
 
-def Val.Small (cfg : Bool) : Val → Prop
-  | .float f => f.Small cfg
-  | .complex re im => re.Small cfg ∧ im.Small cfg
+/-- the domain of the round-trip theorem: every bool, int, rune, string, nil; float and complex
+    constants whose parts are in `Flt.InDomain` (exact fractions below the rounding limit of the
+    decoder variant, or genuine floatVals) -/
+def Val.InDomain (cfg : Bool) : Val → Prop
+  | .float f => f.InDomain cfg
+  | .complex re im => re.InDomain cfg ∧ im.InDomain cfg
   | _ => True
 
 def shapeFixed : List String :=
@@ -42,7 +46,7 @@ private theorem tag_split (tag payload : Bytes) (h : ∀ x ∈ tag, x ≠ cColon
 
 /-- Round trip: serialising any constant and decoding the text gives back the same kind and exactly
     the same value. -/
-theorem unmarshal_marshal (cfg : Bool) (v : Val) (hw : v.WF) (hs : v.Small cfg) :
+theorem unmarshal_marshal (cfg : Bool) (v : Val) (hw : v.WF) (hs : v.InDomain cfg) :
     unmarshal cfg (marshal v) = .ok v := by
   cases v with
   | nil => rfl
@@ -88,13 +92,10 @@ theorem unmarshal_marshal (cfg : Bool) (v : Val) (hw : v.WF) (hs : v.Small cfg) 
     have h2 : kComplex ≠ kInt := by decide
     have h3 : kComplex ≠ kRune := by decide
     have h4 : kComplex ≠ kFloat := by decide
-    have hc : ∀ x ∈ exactString re, x ≠ cColon := by
-      cases re with
-      | rat n d => exact exactString_rat_not_mem_colon n d
-      | big neg m e => exact absurd hs.1 (by simp [Flt.Small])
+    have hc : ∀ x ∈ exactString re, x ≠ cColon := exactString_not_mem_colon re
     simp only [h1, h2, h3, h4, if_false, if_true, splitFirst_append cColon _ _ hc,
       unmarshalFloat_exactString cfg re hw.1 hs.1, unmarshalFloat_exactString cfg im hw.2 hs.2,
-      addZero_small cfg re hs.1, addZero_small cfg im hs.2]
+      addZero_inDomain cfg re hs.1, addZero_inDomain cfg im hs.2]
 
 /-- kind of a decoding result (`none`: no result — panic / outside the modelled literal grammar) -/
 def Res.kind? : Res → Option Kind
@@ -104,7 +105,7 @@ def Res.kind? : Res → Option Kind
   | .abstain => none
 
 /-- different constants never share a serialised text -/
-theorem marshal_injective (cfg : Bool) (v w : Val) (hv : v.WF) (hw : w.WF) (sv : v.Small cfg) (sw : w.Small cfg)
+theorem marshal_injective (cfg : Bool) (v w : Val) (hv : v.WF) (hw : w.WF) (sv : v.InDomain cfg) (sw : w.InDomain cfg)
     (h : marshal v = marshal w) : v = w := by
   have h1 := unmarshal_marshal cfg v hv sv
   have h2 := unmarshal_marshal cfg w hw sw
@@ -112,7 +113,7 @@ theorem marshal_injective (cfg : Bool) (v w : Val) (hv : v.WF) (hw : w.WF) (sv :
   exact (Res.ok.inj h1).symm
 
 /-- the kind survives the round trip -/
-theorem unmarshal_marshal_kind_small (cfg : Bool) (v : Val) (hw : v.WF) (hs : v.Small cfg) :
+theorem unmarshal_marshal_kind_small (cfg : Bool) (v : Val) (hw : v.WF) (hs : v.InDomain cfg) :
     (unmarshal cfg (marshal v)).kind? = some v.kind := by
   rw [unmarshal_marshal cfg v hw hs]; rfl
 
@@ -125,7 +126,7 @@ theorem source_shape_known :
     (cfgExactInt = true ∧ cfgUnmarshalFloatShape = shapeFixed) := by decide
 
 /-- the round trip for the code of the checkout under test -/
-theorem unmarshal_marshal_current (v : Val) (hw : v.WF) (hs : v.Small cfgExactInt) :
+theorem unmarshal_marshal_current (v : Val) (hw : v.WF) (hs : v.InDomain cfgExactInt) :
     unmarshal cfgExactInt (marshal v) = .ok v := unmarshal_marshal cfgExactInt v hw hs
 
 
@@ -333,17 +334,18 @@ theorem unmarshal_marshal_fails_above_threshold :
     unmarshal true (marshal (.float (.rat (2 ^ 4095 - 1) 1))) = .ok (.float (.rat (2 ^ 4095 - 1) 1)) := by
   decide +kernel
 
-/-! ## floatVal mantissa form (partial) -/
+/-! ## floatVal mantissa form -/
 
-/-- PARTIAL (`unmarshal_marshal_bigfloat`): for a floatVal `(-1)^neg * m * 2^e` (512-bit mantissa,
-    binary exponent `x = e + bitlen m`, |x| < 10^9) the text `0x.<hex>p±x` that `Marshal` emits is read
-    back by the literal reader as exactly the mantissa bits `m` (left aligned to a multiple of four)
-    and the exponent `x - 4 * #digits`, for every such `m`, `x`.
-    Missing for the full statement `unmarshal cfg (marshal (.float (.big neg m e))) = ok (same)`:
-    (a) `roundRat M 1 = M` exactly for `M < 2^512`, (b) `stripTwos` returns the odd part, (c) the number
-    of hex digits is exactly `(bitlen m + 3) / 4`.  These are exercised by the correspondence run only
-    (tags rt-f-g, rt-z-g*, decoded-bigfloat; oracle: exact big.Float comparison). -/
-theorem bigfloat_text_parse_partial (m : Nat) (x : Int) (hm : m < 2 ^ 512) (hx : x.natAbs < 10 ^ 9) :
+/-- the round trip for genuine floatVals (instance of `unmarshal_marshal`): `(-1)^neg * m * 2^e` with odd
+    `m < 2^512` and binary exponent `x = e + bitlen m`, 4096 ≤ |x| < 10^9, is printed as `0x.<hex>p±x`
+    and decoded to exactly the same floatVal. -/
+theorem unmarshal_marshal_bigfloat (cfg neg : Bool) (m : Nat) (e : Int) (hm : m % 2 = 1) (hlt : m < 2 ^ 512)
+    (hs : smallExp (e + (bitlen m : Int)) = false) (hx : (e + (bitlen m : Int)).natAbs < 10 ^ 9) :
+    unmarshal cfg (marshal (.float (.big neg m e))) = .ok (.float (.big neg m e)) :=
+  unmarshal_marshal cfg _ (Or.inr ⟨hm, hlt⟩) ⟨hm, hlt, hs, hx⟩
+
+/-- the text of a floatVal is read back as the same mantissa bits and exponent (any exponent size class) -/
+theorem bigfloat_text_parse (m : Nat) (x : Int) (hm : m < 2 ^ 512) (hx : x.natAbs < 10 ^ 9) :
     parseHexP (sHexDot ++ mantHex m ++ cP :: expToDec x) =
       some (m <<< ((4 - bitlen m % 4) % 4), x - 4 * ((mantHex m).length : Int)) :=
   parseHexP_bigText m x hm hx
@@ -362,7 +364,7 @@ theorem parseIntLit_intToDec_roundtrip (i : Int) : parseIntLit (intToDec i) = .v
 
 /-! ## non-vacuity -/
 
-example (cfg : Bool) : (Val.float (.rat (-22) 7)).WF ∧ (Val.float (.rat (-22) 7)).Small cfg :=
+example (cfg : Bool) : (Val.float (.rat (-22) 7)).WF ∧ (Val.float (.rat (-22) 7)).InDomain cfg :=
   ⟨⟨by decide, by decide⟩, okNat_of_lt cfg _ (by simp), okNat_of_lt cfg _ (by omega)⟩
 
 example : marshal (.float (.rat (-22) 7)) = [102, 108, 111, 97, 116, 58, 45, 50, 50, 47, 55] := by decide
@@ -370,6 +372,10 @@ example : marshal (.str [97, 58, 10, 255, 58]) = [115, 116, 114, 105, 110, 103, 
 example : marshal (.complex (.rat 0 1) (.rat 3 2)) = kComplex ++ [58, 48, 58, 51, 47, 50] := by decide
 example : parseHexP (sHexDot ++ mantHex 3 ++ cP :: expToDec 5002) = some (12, 4998) := by decide
 example : (Val.complex (.rat 1 2) (.rat (-5) 1)).IsRat := ⟨trivial, trivial⟩
+example (cfg : Bool) : (Val.complex (.big true 3 5000) (.rat 1 2)).WF ∧
+    (Val.complex (.big true 3 5000) (.rat 1 2)).InDomain cfg :=
+  ⟨⟨Or.inr ⟨by decide, by omega⟩, by decide, by decide⟩,
+   ⟨by decide, by omega, by decide, by decide⟩, okNat_of_lt cfg _ (by simp), okNat_of_lt cfg _ (by omega)⟩
 example : unmarshal false (marshal (.str [58, 58, 0, 255])) = .ok (.str [58, 58, 0, 255]) := by decide
 example : unmarshal true (marshal (.rune (-7))) = .ok (.rune (-7)) := by decide
 example : (unmarshal false (marshal (.float (.big false 1 5000)))).kind? = some .float := by decide +kernel
